@@ -31,6 +31,7 @@ type backend struct {
 	idx  int
 	addr string
 	srv  *http.Server
+	ln   net.Listener
 	up   bool
 }
 
@@ -45,13 +46,25 @@ func (b *backend) start() error {
 		rw.WriteHeader(200)
 		_, _ = rw.Write([]byte("backend " + strconv.Itoa(b.idx)))
 	})}
+	b.ln = ln
 	go func() { _ = b.srv.Serve(ln) }()
 	b.up = true
 	return nil
 }
 
+// stop returns when the port refuses connections (a server closed right after it was started may not have
+// reached Serve yet: its listener is closed here, not by Serve's deferred Close some time later)
 func (b *backend) stop() {
 	_ = b.srv.Close()
+	_ = b.ln.Close()
+	for i := 0; i < 200; i++ {
+		c, err := net.DialTimeout("tcp", b.addr, 200*time.Millisecond)
+		if err != nil {
+			break
+		}
+		_ = c.Close()
+		time.Sleep(5 * time.Millisecond)
+	}
 	b.up = false
 }
 
